@@ -643,7 +643,7 @@ func checkMemoryFileTypestate(c *Ctx, r *Report, pkg string) {
 			if sets == nil {
 				sets = locksets(fn, lockState{})
 			}
-			held := sets[in][lockKey{root, mutex}] >= 2
+			held := sets[in][lk(root, mutex)] >= 2
 			if !held && isFieldRef(ld.X, tFile+".data") {
 				// File.sliceMu is a pointer field: lock calls go through a load of f.sliceMu
 				for k, m := range sets[in] {
